@@ -157,6 +157,9 @@ def part_cf(rep, tier, seed, layouts):
     if tier == "thorough":
         # bodies of 8 items over the loop alphabet {O, IO, C, IG, L, LP, P, INC}
         cfgs.append("MC_MachineCF_len8_thorough.cfg")
+    else:
+        # a terminating loop that prints needs 7 items: bodies `{ ... loop; } ...` of up to 8 items over {O, C, IG, L, LP, P, INC}
+        cfgs.append("MC_MachineCF_loops_quick.cfg")
     for cfg in cfgs:
         r = common.tlc("MC_MachineCF", cfg, workers=6, timeout=2400, heap="8g", tag="C01-cf-%d" % os.getpid())
         if not r.ok:
